@@ -17,7 +17,8 @@ EXTENDS Push
 
 CONSTANTS RecentDays,    \* fetchrecentrefsdays + pruneoffsetdays (default 7 + 3)
           PruneFlags,    \* subset of {"none","dry-run","recent","force","verify-remote"}
-          EmitSel        \* generation only: rotates which flag is emitted for states where nothing is prunable
+          EmitSel,       \* generation only: rotates which flag is emitted for states where nothing is prunable
+          Thin           \* generation only: TRUE applies that thinning, FALSE emits every prune edge
 
 VARIABLES staged,   \* path -> blob staged but not committed ("same" = index equals HEAD)
           stagedIn, \* the worktree whose index holds the staged changes ("main" | "linked")
@@ -96,6 +97,14 @@ OtherRemoteRef(b) ==
   /\ UNCHANGED <<commits, br, rr, rt, head, local, server, everRemote, staged, stagedIn, stashed, pruned, wt>>
   /\ Log([a |-> "otherremote", b |-> b])
 
+\* git branch -D b: the ref goes away; its commits stay in the object database and, where a merge
+\* took them in, in the ancestry of another branch (reachable through that merge's second parent only)
+DeleteBranch(b) ==
+  /\ b # "main" /\ b # head /\ b # wt /\ br[b] # NoCommit
+  /\ br' = [br EXCEPT ![b] = NoCommit]
+  /\ UNCHANGED <<commits, rr, rt, head, local, server, everRemote, staged, stagedIn, stashed, pruned, wt, rt2>>
+  /\ Log([a |-> "delbranch", b |-> b])
+
 ServerLoses(o) ==
   /\ o \in server /\ server' = server \ {o}
   /\ UNCHANGED <<commits, br, rr, rt, head, local, everRemote, staged, stagedIn, stashed, pruned, wt, rt2>>
@@ -150,6 +159,16 @@ PNext == \/ \E b \in Branches, p \in Paths, blob \in Blobs, g \in Ages : PCommit
          \/ \E f \in PruneFlags, from \in {"main", "linked"} : PPrune(f, from)
 PSpec == PInit /\ [][PNext]_pvars
 
+\* The merge family (its own configurations, longer histories over fewer other dimensions): commits on
+\* two branches, merges, deletion of the merged branch, pushes, then a prune from the main worktree.
+PDelBranch(b) == Hist /\ DeleteBranch(b)
+PNextM == \/ \E b \in Branches, p \in Paths, blob \in Blobs, g \in Ages : PCommit(b, p, blob, g)
+          \/ \E b, o \in Branches : PMerge(b, o)
+          \/ \E b \in Branches : PDelBranch(b)
+          \/ \E S \in SUBSET Branches : PPush(S)
+          \/ \E f \in PruneFlags : PPrune(f, "main")
+PSpecM == PInit /\ [][PNextM]_pvars
+
 \* C05 on the design: nothing that must be retained is ever pruned; the unpushed are always safe
 NeverPrunesNeeded == [][\A f \in PruneFlags, from \in {"main", "linked"} : Prune(f, from) => (pruned' \ pruned) \cap MustRetain(f) = {}]_pvars
 
@@ -161,6 +180,6 @@ FlagIdx(f) == CASE f = "none" -> 0 [] f = "verify-remote" -> 1 [] f = "recent" -
 StateKey == Len(commits) + Cardinality(LocalPresent) + Cardinality(server) + Cardinality(stashed)
             + Cardinality({p \in Paths : staged[p] # "same"}) + (IF head = "main" THEN 0 ELSE 1) + (IF wt = "none" THEN 0 ELSE 2) + Cardinality({b \in Branches : rt2[b] # NoCommit}) + EmitSel
 EmitPrune == LET e == hist'[Len(hist')] IN
-             (Emit /\ e.a = "prune" /\ LocalPresent # {} /\ (e.allowed # {} \/ FlagIdx(e.flags) = StateKey % 3)) =>
+             (Emit /\ e.a = "prune" /\ LocalPresent # {} /\ (e.allowed # {} \/ ~Thin \/ FlagIdx(e.flags) = StateKey % 3)) =>
                 CSVWrite("%1$s", <<ToJson(hist')>>, IOEnv.OUT)
 =============================================================================
